@@ -19,6 +19,7 @@ import PV.Model.Dobs
 import PV.Model.Cov
 import PV.Model.Gevp
 import PV.Model.Names
+import PV.Model.Gls
 
 open Lean PV PV.Wire
 
@@ -389,6 +390,15 @@ def opSelect (j : Json) : Except String Json := do
   | none => pure (obj [("exc", .str "select")])
   | some (sel, pos) => pure (obj [("selected", enc sel), ("positions", enc pos)])
 
+/-- op "gls" (exact rationals): {"A": [[q]], "W": [[q]], "y": [q]} -> {"p": [q], "S": [[q]], "chisq": q} | {"exc": "singular"} -/
+def opGls (j : Json) : Except String Json := do
+  let A : List (List Rat) ← get j "A"
+  let W : List (List Rat) ← get j "W"
+  let y : List Rat ← get j "y"
+  match Gls.gls A W y with
+  | none => pure (obj [("exc", .str "singular")])
+  | some (p, S) => pure (obj [("p", enc p), ("S", enc S), ("chisq", enc (Gls.chisq A W y p))])
+
 def dispatch (op : String) (j : Json) : Except String Json :=
   match op with
   | "gamma" => opGamma false j
@@ -406,6 +416,7 @@ def dispatch (op : String) (j : Json) : Except String Json :=
   | "dobs" => opDobs j
   | "cov" => opCov j
   | "gevp" => opGevp j
+  | "gls" => opGls j
   | "sortnames" => opSortNames j
   | "select" => opSelect j
   | "jsonrep" => opJsonRep j
